@@ -30,7 +30,7 @@ def gen_cases(tier, seed):
     out = []
     for i in range(n):
         s = env.seed_for(seed, ID, tier, i)
-        r = random.Random(s)
+        r = random.Random(env.seed_for(s, "descriptor"))  # independent of the stream run_case derives from the same seed
         mode = r.choice(["w1", "anc", "wave", "registry", "failb", "obs", "fail2", "retry"])
         W = 1 if mode in ("w1", "registry", "failb", "fail2", "retry") else r.choice([2, 4, 8])
         extra = {}
